@@ -9,10 +9,12 @@ from . import common
 from pvc import core
 from pvc.core import Sym
 
-MODULES = ['dassh.hotspot']
+MODULES = ['dassh.hotspot', 'dassh.assembly']
 PROPERTY = 'C19'
 FUNCTIONS = ['dassh.hotspot:analyze', 'dassh.hotspot:calculate_temps', 'dassh.hotspot:_get_peak_dt', 'dassh.hotspot:_split_clad_subfactors',
-             'dassh.hotspot:_evaluate_hcf_expr']
+             'dassh.hotspot:_evaluate_hcf_expr',
+             'dassh.assembly:Assembly._update_peak_pin_temps (the contract of C15: the profile that _get_peak_dt reads is '
+             'the row of the pin, at the height, of the nominal peak)']
 ASSUMPTIONS = ['precondition of calculate_temps: IN_sigma > 0 - established at the call site since hotspot._setup_postprocess '
                'rejects input_sigma <= 0 (run-time contract runtime.rejected[hotspot_input_sigma_zero] of C18)',
                'sizes: 1-2 assemblies, 1-3 direct and 1-2 statistical subfactors, 1-5 temperature terms (the function is '
@@ -239,6 +241,10 @@ def configs(tier):
            (analyze, dict(names=['fuel', 'blanket', 'fuel', 'fuel', 'blanket', 'refl', 'fuel'], partial=True,
                           reverse_types=True)),
            (analyze, dict(names=['a', 'b', 'c', 'a', 'b', 'c', 'a'], shuffled=True, regions=['clad_od', 'fuel_od']))]
+    # last sentence of the property: the rises come from the pin and height of the nominal peak - the contract on
+    # Assembly._update_peak_pin_temps (shared with C15), whose stored profile is what _get_peak_dt takes its rises from
+    from . import c15
+    out.append((c15.pins, dict(n_pin=2, n_keys=2)))
     if tier == 'thorough':
         out += [(temps, dict(n_asm=2, n_dir=3, n_stat=2, n_term=5)), (peak_dt, dict(value='clad_id')),
                 (peak_dt, dict(value='fuel_od')), (peak_dt, dict(value='clad_od'))]
